@@ -118,7 +118,7 @@ def finish(res: Result, tier: str, seed: int, t0: float, selftest: Optional[dict
         if k not in fired:
             print(f"pv:   note: listed known finding no longer reported: {k}")
 
-    replay_dir = os.path.join(VERIF, "evidence", "replay")
+    replay_dir = os.path.join(os.environ.get("PV_EVIDENCE_DIR") or os.path.join(VERIF, "evidence"), "replay")
     code = 0
     # a floor that is not met is an analysis error only when nothing definite was found: a violation is
     # derived from positive facts and stays valid when other instances became undecided
@@ -190,8 +190,9 @@ def finish(res: Result, tier: str, seed: int, t0: float, selftest: Optional[dict
         "wall_s": round(time.time() - t0, 3),
         "violations": len(new_viol),
     }
-    os.makedirs(os.path.join(VERIF, "evidence"), exist_ok=True)
-    evp = os.path.join(VERIF, "evidence", f"{pid}.json")
+    evdir = os.environ.get("PV_EVIDENCE_DIR") or os.path.join(VERIF, "evidence")   # override only for tooling (seed re-evaluation)
+    os.makedirs(evdir, exist_ok=True)
+    evp = os.path.join(evdir, f"{pid}.json")
     with open(evp, "w", encoding="utf-8") as fh:
         json.dump(ev, fh, indent=1, sort_keys=True)
     try:
